@@ -27,7 +27,7 @@ void RestorePointContainer::write(AbstractFile & os) {
     ObjectHeader::write(os);
     os.write(reinterpret_cast<char *>(reservedRestorePointContainer.data()), static_cast<std::streamsize>(reservedRestorePointContainer.size()));
     os.write(reinterpret_cast<char *>(&dataLength), sizeof(dataLength));
-    os.write(reinterpret_cast<char *>(data.data()), static_cast<std::streamsize>(data.size()));
+    os.write(reinterpret_cast<char *>(data.data()), dataLength);
 }
 
 uint32_t RestorePointContainer::calculateObjectSize() const {
